@@ -193,9 +193,23 @@ class Facts:
                     out.append(self._cache[k])
         return out
 
-    def all_fns(self, krates=None):
-        """All fn records of the given crates (file-name prefixes)."""
+    def _raw(self, ent):
+        f, off, n = ent[0], ent[1], ent[2]
+        fh = self._fh.get(f)
+        if fh is None:
+            fh = self._fh[f] = open(os.path.join(self.dir, f), "rb")
+        fh.seek(off)
+        return fh.read(n)
+
+    def all_fns(self, krates=None, contains=None):
+        """All fn records of the given crates (file-name prefixes). `contains`: a byte string (or tuple of byte strings, any of
+        which) that must occur in the record's raw JSON text - a cheap pre-filter that avoids decoding records a rule would skip
+        anyway (it must only be used for text the rule itself requires to be present)."""
         out = []
+        if isinstance(contains, (bytes, str)):
+            contains = (contains,)
+        if contains:
+            contains = tuple(c.encode() if isinstance(c, str) else c for c in contains)
         for ent in self.idx:
             if ent[3] != "fn":
                 continue
@@ -203,7 +217,15 @@ class Facts:
                 continue
             k = ("fnE", ent[0], ent[1])
             if k not in self._cache:
-                self._cache[k] = self._read(ent)
+                if contains:
+                    raw = self._raw(ent)
+                    if not any(c in raw for c in contains):
+                        continue
+                    self._cache[k] = json.loads(raw)
+                else:
+                    self._cache[k] = self._read(ent)
+            elif contains:
+                pass
             out.append(self._cache[k])
         return out
 
